@@ -42,7 +42,7 @@ def gen_struct(st, rng, skip=()):
 def gen_designator(rng, kind, maxlen=255):
     """returns (designator_type, value dict in library vocabulary)"""
     if kind == "vendor":
-        return 0, {"vendor_specific": gen.byte_string(rng, rng.choice([1, 4, 8, 20]) if maxlen >= 20 else 4)}
+        return 0, {"vendor_specific": gen.byte_string(rng, rng.choice([1, 4, 8, 20, 127, 128, 255] if maxlen >= 255 else [1, 4, 8, 20]) if maxlen >= 20 else 4)}
     if kind == "t10":
         n = rng.choice([0, 1, 8, 12]) if maxlen >= 20 else 4
         return 1, {"t10_vendor_id": gen.byte_string(rng, 8, "text"), "vendor_specific_id": gen.byte_string(rng, n)}
@@ -481,6 +481,8 @@ class VpdSupported(VpdBase):
     def gen(self, rng, mode="rand"):
         v = self.gen_hdr(rng)
         n = rng.choice([0, 1, 2, 3, 8, 40])
+        if isinstance(mode, tuple) and mode[0] == "count":
+            n = min(mode[1], 256)
         v["vpd_pages"] = sorted(rng.sample(range(256), n))
         return v
 
@@ -495,7 +497,10 @@ class VpdSerial(VpdBase):
 
     def gen(self, rng, mode="rand"):
         v = self.gen_hdr(rng)
-        v["unit_serial_number"] = gen.byte_string(rng, rng.choice([0, 1, 4, 8, 16, 20, 36]), "text")
+        n = rng.choice([0, 1, 4, 8, 16, 20, 36])
+        if isinstance(mode, tuple) and mode[0] == "count":
+            n = mode[1]
+        v["unit_serial_number"] = gen.byte_string(rng, n, "text")
         return v
 
     def encode(self, v):
@@ -511,6 +516,8 @@ class VpdDevId(VpdBase):
         v = self.gen_hdr(rng)
         if isinstance(mode, tuple) and mode[0] == "kind":
             v["designator_descriptors"] = [gen_designation_descriptor(rng, mode[1])]
+        elif isinstance(mode, tuple) and mode[0] == "count":
+            v["designator_descriptors"] = [gen_designation_descriptor(rng) for _ in range(mode[1])]
         else:
             n = rng.choice([0, 1, 1, 2, 3, 5])
             v["designator_descriptors"] = [gen_designation_descriptor(rng) for _ in range(n)]
@@ -960,11 +967,14 @@ class ReadElementStatusF(Format):
     def gen(self, rng, mode="rand"):
         v = {"first_element_address": gen.rand_value(rng, 16), "num_elements": 0, "element_status_pages": []}
         npages = counts(rng, mode) if isinstance(mode, tuple) else rng.choice([0, 1, 2, 3])
+        big = 0
+        if npages > 5:
+            big, npages = npages, 1
         for _ in range(npages):
             t = rng.choice([1, 2, 3, 4])
             p = {"element_type": t, "pvoltag": rng.getrandbits(1), "avoltag": rng.getrandbits(1),
                  "_tail": rng.choice([0, 4, 4, 8]), "element_descriptors": []}
-            for _ in range(rng.choice([0, 1, 2, 4])):
+            for _ in range(big or rng.choice([0, 1, 2, 4])):
                 d = gen_struct(self.BYTYPE[t], rng)
                 if p["pvoltag"]:
                     d["primary_volume_tag"] = gen.byte_string(rng, 36, "text")
